@@ -395,6 +395,11 @@ def run(ctx):
     cps = [e for e in corpus.discover() if e["bytes"] < 20000]
     for e in rng.sample(cps, min(n_corpus, len(cps))):
         scen.append(("corpus", e))
+    # scripts with an eval operator open a second (auxiliary) connection during semantic analysis
+    evals = [e for e in corpus.discover() if e["id"].startswith("Eval/") and e.get("sqls")]
+    for e in (evals[:1] if quick else evals):
+        if all(e is not x[1] for x in scen if x[0] == "corpus"):
+            scen.insert(0, ("corpus", e))
     tasks = []
     for i, s in enumerate(scen):
         op = _swarm_op(rng, s)
